@@ -13,12 +13,16 @@ every block leaves `_STACK` exactly as it found it (normal exit, exception, refu
 the base `[reflect, eager]` is never popped.
 
 A program is a nested tuple:
-    ("skip",) ("obs",) ("raise",) ("probe", k, armed) ("with", ctx, body) ("deco", ctx, body)
+    ("skip",) ("obs",) ("raise",) ("probe", k, armed, tok) ("with", ctx, body) ("deco", ctx, body)
     ("seq", [p…]) ("catch", body)
     ("def", f, ctx, body)  `@ctx def f(): body` applied at this point (stack state S1);
     ("call", f)            `f()` at this point (stack state S2); f is visible to the later items of the
                            sequence containing its def (and everything nested in them).  For the model a call is
-                           `(deco ctx body)` at the CALL site (`inline`): entering happens at call time            ctx = "memoize" | "tape" | "subst0" | <name>;  ("with", "subst", ("probe", "S", armed)) is a
+                           `(deco ctx body)` at the CALL site (`inline`): entering happens at call time            
+    ctx = "memoize" (fresh cache) | "memoS1" | "memoS2" (memoize(cache=d1/d2): the user's own dict) | "tape" |
+          "tapeR" | "subst0" | <name>;  (k, tok) names the probe TERM: equal (k, tok) = same class and arguments
+          = same Memoize key, so the fixed families build the same terms at every position of a program.
+    ("with", "subst", ("probe", "S", armed, tok)) is a
     call of funsor.terms.substitute on a fresh MarkS term (its eager_subs is the probe)
 """
 import ast
@@ -209,7 +213,7 @@ class PyModel:
             return False
         if t == "prio":
             return any(self.total(x) for x in i[2])
-        return self.total(i[1])
+        return self.total(i[-1])
 
     @staticmethod
     def subs(i):
@@ -241,12 +245,14 @@ class PyModel:
             return i[1]
         if t == "prio":
             return i[1] if i[1] is not None else "[" + " ".join(self.canon(x) for x in i[2]) + "]"
+        if t == "memo":
+            return ("memoS%d(" % i[1] if i[2] else "memo(") + self.canon(i[3]) + ")"
         return t + "(" + self.canon(i[1]) + ")"
 
     def cstack(self, s):
         return ",".join(self.canon(x) for x in s)
 
-    def interp(self, i, s, k, armed):
+    def interp(self, i, s, k, armed, tok=0):
         """returns fired (name, stack snapshot) or None; raises ProbeError etc.; s restored by with-discipline"""
         t = i[0]
         if t == "reflect":
@@ -260,30 +266,40 @@ class PyModel:
             return None
         if t == "prio":
             for x in i[2]:
-                r = self.interp(x, s, k, armed)
+                r = self.interp(x, s, k, armed, tok)
                 if r is not None:
                     return r
             return None
         if t == "memo":
-            return self.interp(i[1], s, k, armed)
+            _, cid, sh, b = i
+            cache = self.caches.setdefault((cid, sh, None if sh else b), {})
+            h = cache.get((k, tok))
+            if h is not None:
+                self.hit = True
+                return (h, tuple(s))
+            r = self.interp(b, s, k, armed, tok)
+            if r is not None:
+                cache[(k, tok)] = r[0]
+            return r
         if t == "tape":
             old = i[1]
             if k in self.adj:
                 self.enter(old, s)
                 try:
-                    r = self.interp(old, s, k, armed)
+                    r = self.interp(old, s, k, armed, tok)
                 finally:
                     s.pop()
             else:
-                r = self.interp(old, s, k, armed)
+                r = self.interp(old, s, k, armed, tok)
             self.enter(old, s)
             s.pop()
             return r
         if t in ("subst", "subst0"):
             self.enter(i[1], s)
             try:
-                r = self.interp(i[1], s, k, armed)
+                r = self.interp(i[1], s, k, armed, tok)
                 if k == "S" and t == "subst":
+                    self.hit = False
                     r = self.fired = ("subst", tuple(s))
                     if armed:
                         raise ProbeError("subst")
@@ -295,6 +311,8 @@ class PyModel:
     def run(self, prog):
         s = [self.named(n) for n in self.base_names]
         self.log = []
+        self.caches = {}
+        self.next = 0
         out = "normal"
         try:
             self.ex(prog, s)
@@ -307,10 +325,15 @@ class PyModel:
         return out, self.cstack(s), self.log
 
     def ctx_obj(self, c, s):
-        if c in ("memoize", "tape", "tapeR", "subst", "subst0"):
+        if c in ("memoize", "memoS1", "memoS2", "tape", "tapeR", "subst", "subst0"):
             if not s:
                 raise IndexError
-            return ({"memoize": "memo", "tape": "tape", "tapeR": "tape", "subst": "subst", "subst0": "subst0"}[c], s[-1])
+            if c == "memoize":
+                self.next += 1
+                return ("memo", self.next - 1, False, s[-1])
+            if c.startswith("memoS"):
+                return ("memo", int(c[-1]), True, s[-1])
+            return ({"tape": "tape", "tapeR": "tape", "subst": "subst", "subst0": "subst0"}[c], s[-1])
         return self.named(c)
 
     def ex(self, p, s):
@@ -322,15 +345,18 @@ class PyModel:
                 raise IndexError
             k = p[1]
             self.fired = None
+            self.hit = False
             try:
-                r = self.interp(s[-1], s, k, p[2])
+                r = self.interp(s[-1], s, k, p[2], p[3])
                 self.fired = r
             finally:
                 f = self.fired
                 if f is None:
                     self.log.append("?%s=-@*" % k)
+                elif f[0] not in OBSERVABLE:
+                    self.log.append("?%s=%s@*" % (k, f[0]))
                 else:
-                    self.log.append("?%s=%s@%s" % (k, f[0], self.cstack(f[1]) if f[0] in OBSERVABLE else "*"))
+                    self.log.append("?%s=%s@%s" % (k, f[0], "cached" if self.hit else self.cstack(f[1])))
         elif t == "seq":
             for q in p[1]:
                 self.ex(q, s)
@@ -388,7 +414,7 @@ def sx_prog(p):
     if t in ("obs", "raise", "skip"):
         return t
     if t == "probe":
-        return "(probe %s %s)" % (p[1], "true" if p[2] else "false")
+        return "(probe %s %s %d)" % (p[1], "true" if p[2] else "false", p[3])
     if t == "seq":
         return "(seq " + " ".join(sx_prog(q) for q in p[1]) + ")" if p[1] else "skip"
     if t in ("with", "deco"):
@@ -409,7 +435,7 @@ def to_python(p, ind=0, lines=None, fn=None):
     if t == "obs":
         lines.append(pad + "obs()")
     elif t == "probe":
-        lines.append(pad + "probe(%r, %r)" % (p[1], bool(p[2])))
+        lines.append(pad + "probe(%r, %r, %r)" % (p[1], bool(p[2]), p[3]))
     elif t == "seq":
         if not p[1]:
             lines.append(pad + "pass")
@@ -417,7 +443,7 @@ def to_python(p, ind=0, lines=None, fn=None):
             to_python(q, ind, lines, fn)
     elif t == "with":
         if p[1] == "subst" and p[2][0] == "probe" and p[2][1] == "S":
-            lines.append(pad + "do_substitute(%r)" % bool(p[2][2]))
+            lines.append(pad + "do_substitute(%r, %r)" % (bool(p[2][2]), p[2][3]))
         else:
             lines.append(pad + "with ctx(%r):" % p[1])
             to_python(p[2], ind + 1, lines, fn)
@@ -472,15 +498,17 @@ def source_comment(p):
 # --------------------------------------------------------------------------------------
 
 ALPHABET = ["eager", "lazy", "reflect", "normalize", "sequential", "moment_matching", "memoize", "P", "tape", "W"]
-FULL = [("probe", k, False) for k in PROBES]
-LIGHT = [("probe", "a", False)]
+# every probe carries a token: the same (kind, token) is the same term (same Memoize key).  The fixed
+# families build the SAME terms (token 1) at every position of a program — that is what a cache can get wrong.
+FULL = [("probe", k, False, 1) for k in PROBES] + [("probe", "a", False, 1)]
+LIGHT = [("probe", "a", False, 1)]
 
 
 def nest(chain, kinds, inner, after=None):
     """with c0: obs; with c1: obs; … inner …; [after_i]  — `after(i)` is placed after block i closes."""
     body = inner
     for i in range(len(chain) - 1, -1, -1):
-        blk = (kinds[i], chain[i], ("seq", [("obs",)] + body))
+        blk = (kinds[i], chain[i], ("seq", [("obs",)] + LIGHT + body))
         body = [blk] + (after(i) if after else [])
     return body
 
@@ -498,9 +526,9 @@ def prog_raise(chain, kinds, j, how):
     if how == "raise":
         boom = [("raise",)]
     elif how == "subst":
-        boom = [("with", "subst", ("probe", "S", True)), ("raise",)]
+        boom = [("with", "subst", ("probe", "S", True, 1)), ("raise",)]
     else:
-        boom = [("probe", how, True), ("raise",)]     # raises inside the rule if a harness rule handles it
+        boom = [("probe", how, True, 2), ("raise",)]  # raises inside the rule if a harness rule handles it
     inner = nest(chain[j:], kinds[j:], boom)
     mid = [("catch", ("seq", inner)), ("obs",)] + LIGHT
     outer = nest(chain[:j], kinds[:j], mid, after=lambda i: [("obs",)])
@@ -543,6 +571,11 @@ def random_prog(rng, depth, budget):
     """family C: arbitrary well-nested programs (sequences, nested try/except, decorators,
     substitution, armed probes), deeper than the exhaustive bound."""
     fresh = itertools.count(1)
+    uniq = itertools.count(100)
+
+    def tok():
+        # mostly REPEATED terms (tokens 1, 2), sometimes a term never built before
+        return rng.choice([1, 1, 1, 2, 2, 0]) or next(uniq)
 
     def go(d, shared_open=False, visible=()):
         n = rng.choice([1, 1, 2, 2, 3])
@@ -554,14 +587,15 @@ def random_prog(rng, depth, budget):
             budget[0] -= 1
             r = rng.random()
             if d < depth and r < 0.50:
-                c = rng.choice(ALPHABET + ["P", "P", "W", "subst0", "tape", "memoize"] + ([] if shared_open else ["tapeR"] * 3))
+                c = rng.choice(ALPHABET + ["P", "P", "W", "subst0", "tape", "memoize", "memoize", "memoS1", "memoS1", "memoS2"]
+                               + ([] if shared_open else ["tapeR"] * 3))
                 kind = "deco" if rng.random() < 0.3 else "with"
                 blk = (kind, c, ("seq", go(d + 1, shared_open or c == "tapeR", visible)))
                 items.append(("catch", blk) if rng.random() < 0.35 else blk)
             elif d < depth and r < 0.56:
                 # decorator form: decorate here, call later (under a different stack)
                 name = "f%d" % next(fresh)
-                items.append(("def", name, rng.choice(ALPHABET + ["P", "P", "W"]),
+                items.append(("def", name, rng.choice(ALPHABET + ["P", "P", "W", "memoS1"]),
                               ("seq", go(d + 1, True, visible))))
                 visible.append(name)
             elif visible and r < 0.66:
@@ -570,9 +604,9 @@ def random_prog(rng, depth, budget):
             elif r < 0.70:
                 items.append(("obs",))
             elif r < 0.80:
-                items.append(("probe", rng.choice(PROBES + ["S"]), rng.random() < 0.3))
+                items.append(("probe", rng.choice(PROBES + ["S"]), rng.random() < 0.3, tok()))
             elif r < 0.88:
-                items.append(("with", "subst", ("probe", "S", rng.random() < 0.4)))
+                items.append(("with", "subst", ("probe", "S", rng.random() < 0.4, tok())))
             elif r < 0.94:
                 items.append(("raise",))
             else:
@@ -704,6 +738,8 @@ class Checker:
         for o in obs:
             if o[0] == "?":
                 ctx.count("handler:" + o[1:o.index("@")])
+                if o.endswith("@cached"):
+                    ctx.count("observed-cache-hit(harness rule's value returned without firing)")
         ctx.case(sample={"family": label, "prog": sx_prog(prog)} if ctx.evaluations % 9973 == 0 else None,
                  nontrivial_key=sx_prog(prog) if d >= 2 else None)
 
@@ -787,7 +823,7 @@ def candidates(p):
     elif t == "with" and p[1] == "subst":
         # a call of funsor.terms.substitute: atomic
         if p[2][2]:
-            yield ("with", "subst", ("probe", "S", False))
+            yield ("with", "subst", ("probe", "S", False, p[2][3]))
     elif t in ("with", "deco"):
         yield p[2]
         if p[2] != ("skip",):
@@ -804,7 +840,7 @@ def candidates(p):
         for c in candidates(p[3]):
             yield ("def", p[1], p[2], c)
     elif t == "probe" and p[2]:
-        yield ("probe", p[1], False)
+        yield ("probe", p[1], False, p[3])
 
 
 # --------------------------------------------------------------------------------------
@@ -841,6 +877,22 @@ def enumerate_all(ctx, chk, D):
                 chk.add(prog_raise_after(chain, kinds_for(rng, k), i, rng.randrange(i + 1)), "B2:raise-after-exit")
 
 
+def enumerate_shared_cache(ctx, chk):
+    """family F: the explicit-cache form memoize(cache=d) as a context of its own: every chain of depth <= 3
+    over the alphabet + memoS1 that contains memoS1 (the same dict possibly under several bases: the model
+    predicts the stale answers exactly)."""
+    rng = ctx.rng
+    alpha = ALPHABET + ["memoS1"]
+    for k in (1, 2, 3):
+        for chain in itertools.product(alpha, repeat=k):
+            if "memoS1" not in chain:
+                continue
+            chain = list(chain)
+            chk.add(prog_chain(chain, kinds_for(rng, k)), "F:shared-cache")
+            chk.add(prog_raise(chain, kinds_for(rng, k), rng.randrange(k), rng.choice(["raise", "a", "bin"])),
+                    "F:shared-cache")
+
+
 def enumerate_reuse(ctx, chk):
     for c1 in ALPHABET:
         for c2 in ALPHABET:
@@ -871,6 +923,8 @@ def correspond(ctx, use_driver=True, volume=1):
                 "different stack states: `@k def f` decorated inside every block chain of depth <= 2 and called (normally, raising, "
                 "and from inside another decorated function) inside every block chain of depth <= 2 (quick: depth sum <= 3), for every k "
                 "— the model enters k at call time.  with-vs-decorator per block is drawn from the PRNG.  "
+                "(F) memoize(cache=d) (explicit shared dict) in every chain of depth <= 3 containing it.  The SAME probe terms (token 1) are built at "
+                "every position of every program (after each enter, at the innermost position, after each exit), so Memoize caches are hit; "
                 "RANDOM (C): general programs with sequences, nested try/except, substitution, armed probes, depth <= 7, and "
                 "7..9 nested partial interpretations.  Non-trivial = nesting depth >= 2; distinct by program text.")
     if not base_check(ctx, tb):
@@ -879,6 +933,7 @@ def correspond(ctx, use_driver=True, volume=1):
     D = 4 if ctx.tier == "quick" else 5
     enumerate_all(ctx, chk, D)
     enumerate_reuse(ctx, chk)
+    enumerate_shared_cache(ctx, chk)
     enumerate_decorate_call(ctx, chk, ctx.tier != "quick")
     ctx.exhaustive = True
     n_rand = (3000 if ctx.tier == "quick" else 40000) * volume
@@ -888,7 +943,8 @@ def correspond(ctx, use_driver=True, volume=1):
         chk.add(deep_partial_prog(ctx.rng, ctx.rng.choice([6, 7, 8, 9])), "C:deep-partial")
     chk.flush()
     ctx.coverage["exhaustive_depth"] = D
-    ctx.assumptions.append("probe terms are fresh per step, so Memoize never answers from its cache (C03 covers the cache)")
+    ctx.assumptions.append("Memoize caches are modelled as explicit state keyed by the probe term; a cached funsor is "
+                           "identified by the leaf whose rule produced it (its class / sentinel), not by its value")
     ctx.assumptions.append("`_STACK` is a process-global list; threads are outside the property's quantifier")
     ctx.assumptions.append("an AdjointTape object is entered once (re-entering the same tape object recurses in "
                            "AdjointTape.interpret and is not a well-nested use)")
